@@ -443,18 +443,35 @@ func c18EnterOnly(c *Ctx) *RuleResult {
 				}
 				n++
 				construct := constructOf(u, spec[0]+"."+spec[1]+".Lock")
-				isEnter := u.Fn.Name() == "enter" && u.Decl.Recv != nil && recvTypeName(u) == spec[0]
+				isEnterUnit := func(x *FuncUnit) bool {
+					return x.Fn.Name() == "enter" && x.Decl.Recv != nil && recvTypeName(x) == spec[0]
+				}
+				isEnter := isEnterUnit(u)
+				nowUnits := []*FuncUnit{u}
+				if !isEnter {
+					// a helper that only enter() calls is part of enter()
+					sites := CallsTo(units, u.Fn)
+					onlyEnter := len(sites) > 0
+					for _, s := range sites {
+						if !isEnterUnit(s.Unit) {
+							onlyEnter = false
+						} else {
+							nowUnits = append(nowUnits, s.Unit)
+						}
+					}
+					isEnter = onlyEnter
+				}
 				if !isEnter {
 					r.bad(c.Prop, construct, posOf(p, call), "the state lock is taken directly instead of through enter(): program.now is not advanced, so the client's lease is renewed with a stale time (state is purged although the client was active), and expired state is not collected first")
 					return true
 				}
 				// enter() advances now from the clock
 				okNow := false
-				for _, w := range FieldWrites([]*FuncUnit{u}, now, false) {
+				for _, w := range FieldWrites(nowUnits, now, false) {
 					if w.RHS == nil {
 						continue
 					}
-					src := resolveLocalAlias(u, w.RHS)
+					src := resolveLocalAlias(w.Unit, w.RHS)
 					if strings.Contains(exprStr(src), "clock.Now()") {
 						okNow = true
 					}
